@@ -129,11 +129,11 @@ def parse_events(o):
     head, consumed, wlog = o[0], o[1][0], o[2]
     i, inv = 3, []
     while i < len(o) and o[i] != [200]:
-        if o[i] == [100]:
+        if o[i][:1] == [100]:
             hdr = o[i + 1]
             n = hdr[2]
             env = [(o[i + 2 + 2 * q], o[i + 3 + 2 * q]) for q in range(n)]
-            inv.append({"hdr": hdr, "env": env, "ops": []})
+            inv.append({"hdr": hdr, "env": env, "ops": [], "epoch": o[i][1] if len(o[i]) > 1 else 0})
             i += 2 + 2 * n
         else:
             ev = o[i]
